@@ -32,6 +32,7 @@ func runC06(p *load.Program, r *oblig.Report) {
 	c06FetchWatermark(p, r)
 	c06FreshBytes(p, r)
 	c06FreshMerger(p, r, "C06.R12 the merged response of a split request belongs to one call")
+	shareRules(r, "C06", "C06.R13 the bytes a caller holds are not handed to another response (C05.R6)", func(sub *oblig.Report) { c05PageRefs(p, sub) })
 	c06AwaitPositional(p, r, "C06.R11 the answer to part i of a split request is filed as part i")
 	// the read lock may only be released when the stream is at a frame boundary (or the connection is closed)
 	newC11(p, r).batchCloseDrains("C06.R2 read lock released only at a frame boundary")
